@@ -128,6 +128,47 @@ func VerifC19_DevServer1() { zzDevHistory(1) }
 func VerifC19_DevServer2() { zzDevHistory(2) }
 func VerifC19_DevServer3() { zzDevHistory(3) }
 
+// Two saves in quick succession: the second save's reload starts while the
+// first one is still rebuilding the server (the debounce timer fires reload()
+// on its own goroutine). Whatever the overlap, once both have returned the
+// server answers with the version on disk.
+func VerifC19_DevOverlappingReloads() {
+	zzverif.FSReset()
+	zzverif.FSFile("/app/main.glyph", zzVersionSource(0))
+	m := &hotReloadManager{filePath: zzverif.FSPath("/app/main.glyph"), port: zzDevPort, liveReloadConns: make(map[*liveReloadConn]bool)}
+	defer func() {
+		if m.server != nil {
+			m.server.Close()
+		}
+	}()
+	if err := m.startServer(); err != nil {
+		zzverif.Fail("initial valid version does not start")
+	}
+	firstValid := zzverif.Bool("first save is valid")
+	if firstValid {
+		zzverif.FSFile("/app/main.glyph", zzVersionSource(1))
+	} else {
+		zzverif.FSFile("/app/main.glyph", "@ GET /v {\n  > (1 +\n}\n")
+	}
+	done := make(chan struct{}, 2)
+	go func() { m.reload(); done <- struct{}{} }()
+	if !zzverif.Symbolic() {
+		time.Sleep(60 * time.Millisecond) // natively: let the first reload get going
+	}
+	zzverif.Yield()
+	zzverif.FSFile("/app/main.glyph", zzVersionSource(2))
+	go func() { m.reload(); done <- struct{}{} }()
+	<-done
+	<-done
+	st, mk := zzDevGet()
+	zzverif.Assert(st != -1, "after two overlapping reloads: nothing is listening")
+	if zzverif.Symbolic() {
+		zzverif.Assert(zzverif.ListeningCount(listenAddr(zzDevPort)) == 1, "after two overlapping reloads: more than one server listening on the port")
+	}
+	zzverif.Assert(st == 200 && mk == 102, "after two overlapping reloads: the version on disk is not the one served")
+	zzverif.Reach("dev-overlap")
+}
+
 func VerifC19_DevTwin() {
 	zzverif.FSReset()
 	zzverif.FSFile("/app/main.glyph", zzVersionSource(0))
